@@ -74,9 +74,11 @@ ESCROW_FAMILIES = {
               DepositChoices=[0, 1, 3, 4], AmountChoices=[2], RateChoices=[1, 2], PayOSeqs=[1], Gaps=[1, 2], MaxHeight=5, InitCoins=6),
     "E3": dict(Tenants=["t1"], Providers=["p1", "p2", "p3"], Auditors=[], DSeqs=[1], GSeqs=[1], OSeqs=[1], MinDeposit=0, BidMinDeposit=0,
                DepositChoices=[0, 2, 5, 7], AmountChoices=[1, 3], RateChoices=[1, 2, 3], PayOSeqs=[1], Gaps=[1, 2, 3], MaxHeight=7, InitCoins=12),
-    # three concurrent payees, small (quick tier): order-dependent even distribution of the overdraft remainder
+    # three concurrent payees, small (quick tier): order-dependent even distribution of the overdraft remainder; a second
+    # (bystander) account whose coins sit in the same module account, so that an overpayment has something to take
     "E3q": dict(Tenants=["t1"], Providers=["p1", "p2", "p3"], Auditors=[], DSeqs=[1], GSeqs=[1], OSeqs=[1], MinDeposit=0, BidMinDeposit=0,
-                DepositChoices=[5], AmountChoices=[], RateChoices=[1, 2], PayOSeqs=[1], Gaps=[1, 2], MaxHeight=3, InitCoins=5),
+                DepositChoices=[5], AmountChoices=[], RateChoices=[1, 2], PayOSeqs=[1], Gaps=[1, 2], MaxHeight=3, InitCoins=8,
+                BystanderDeposits=[3]),
     # simulation only: larger amounts, two payment slots per provider
     "EL": dict(Tenants=["t1"], Providers=["p1", "p2", "p3"], Auditors=[], DSeqs=[1], GSeqs=[1], OSeqs=[1, 2], MinDeposit=0, BidMinDeposit=0,
                DepositChoices=[0, 5, 17, 40, 100], AmountChoices=[1, 7, 30], RateChoices=[1, 2, 3, 7, 10], PayOSeqs=[1, 2],
@@ -85,11 +87,11 @@ ESCROW_FAMILIES = {
 FAMILIES.update(ESCROW_FAMILIES)
 
 # which families matter for which property (quick tier); thorough runs all of them
-QUICK = {"C01": ["SQ1", "SQ3", "A", "E"], "C02": ["E", "E3q", "A", "S"], "C03": ["SQ1", "SQ2", "SQ3", "S", "E"],
-         "C04": ["SQ1", "SQ2", "SQ3", "S"], "C05": ["SQ1", "SQ2", "SQ3", "SQ5", "S"], "C06": ["B", "R", "SQ2", "SQ3"],
-         "C07": ["R", "E", "A"], "C08": ["RX", "RA", "R"], "C16": ["SQ1", "SQ2", "SQ3", "R"]}
+QUICK = {"C01": ["SQ1", "SQ3", "A", "E", "E3q"], "C02": ["E", "E3q", "A", "S"], "C03": ["SQ1", "SQ2", "SQ3", "S", "E"],
+         "C04": ["SQ1", "SQ2", "SQ3", "SQ5", "S"], "C05": ["SQ1", "SQ2", "SQ3", "SQ5", "S"], "C06": ["B", "R", "SQ2", "SQ3"],
+         "C07": ["R", "RX", "E", "A"], "C08": ["RX", "RA", "R"], "C16": ["SQ1", "SQ2", "SQ3", "R"]}
 THOROUGH = {"C01": ["SX", "E", "EL", "S", "A", "B"], "C02": ["SX", "E", "E3q", "EL", "A", "S"], "C03": ["SX", "E", "EL", "S", "A"],
-            "C04": ["SX", "SQ3", "S", "A", "B"], "C05": ["SX", "SQ3", "SQ5", "S", "A", "B"], "C06": ["SX", "RX", "E", "B", "R", "S"],
+            "C04": ["SX", "SQ3", "SQ5", "S", "A", "B"], "C05": ["SX", "SQ3", "SQ5", "S", "A", "B"], "C06": ["SX", "RX", "E", "B", "R", "S"],
             "C07": ["SX", "RX", "R", "S", "A"], "C08": ["RX", "RA", "SX", "R"], "C16": ["SX", "RX", "SQ3", "S", "A", "R", "B"]}
 EXHAUSTIVE = {"SX", "SQ1", "SQ2", "SQ3", "SQ5", "RX", "RA", "E", "E3", "E3q"}
 PAR = max(2, min(8, vlib.NCPU // 2))     # concurrent harness processes / J3 JVMs
@@ -110,6 +112,7 @@ def escrow_cfg(fam, sim, depth):
     for k in ("Tenants", "Providers", "Auditors", "DSeqs", "GSeqs", "OSeqs", "DepositChoices", "AmountChoices", "RateChoices",
               "PayOSeqs", "Gaps"):
         lines.append("  %s = %s" % (k, tla_set(c[k])))
+    lines.append("  BystanderDeposits = %s" % tla_set(c.get("BystanderDeposits", [])))
     lines.append("  ProvRank <- ProvRankDef")
     for k in ("MinDeposit", "BidMinDeposit", "InitCoins"):
         lines.append("  %s = %d" % (k, c[k]))
